@@ -170,8 +170,10 @@ class Atmo:  # pylint: disable=too-many-instance-attributes
         Returns:
             pressure in hPa
         """
-        p = self._p0 * math.pow(1 + cLapseRateKperFoot * (altitude - self._a0) / (self._t0 + cDegreesCtoK),
-                                cPressureExponent)
+        # the linear lapse model reaches absolute zero ~145,000 ft above the station: no pressure is left there
+        # (a negative base would make math.pow raise ValueError in the middle of a trajectory)
+        base = max(0.0, 1 + cLapseRateKperFoot * (altitude - self._a0) / (self._t0 + cDegreesCtoK))
+        p = self._p0 * math.pow(base, cPressureExponent)
         return p
 
     def get_density_factor_and_mach_for_altitude(self, altitude: float) -> Tuple[float, float]:
